@@ -519,12 +519,23 @@ def neutralise(fb, ids):
 
 # ------------------------------------------------------------------ leaves
 
-TYPES = ["file", "a", "ipv4-addr", "x-foo", "network-traffic", "a-b-c", "_t", "email-message", "t", "h", "b"]
+# keywords of the two installed grammars (literal names of the generated lexers); a keyword of one version that is
+# not one of the other is an ordinary name there
+KEYWORDS_21 = ["AND", "OR", "NOT", "FOLLOWEDBY", "LIKE", "MATCHES", "ISSUPERSET", "ISSUBSET", "EXISTS", "LAST", "IN", "START",
+               "STOP", "SECONDS", "true", "false", "WITHIN", "REPEATS", "TIMES"]
+KEYWORDS_20 = [k for k in KEYWORDS_21 if k != "EXISTS"]
+ONLY_21 = [k for k in KEYWORDS_21 if k not in KEYWORDS_20]
+# sizes / depths on both sides of plausible bounds
+SIZES = [0, 1, 2, 9, 10, 11, 63, 64, 65, 100, 101, 255, 256]
+
+TYPES = ["file", "a", "ipv4-addr", "x-foo", "network-traffic", "a-b-c", "_t", "email-message", "t", "h", "b", "x--y", "a__b"]
 IDENTS = ["a", "b", "c", "name", "value", "hashes", "x_y", "_z", "A1", "src_ref", "dst_ref", "extensions", "b64",
-          "t", "h", "ANDx", "INx", "trues", "not", "and", "True", "exists", "e1"]
+          "t", "h", "ANDx", "INx", "trues", "not", "and", "True", "exists", "e1", "a__b", "__", "x_y_z", "_ref", "x__ref"] + \
+         [k.swapcase() for k in KEYWORDS_21]          # a keyword in the other case is an ordinary identifier
 QKEYS_HYPHEN = ["SHA-256", "a-b", "windows-pebinary-ext", "x-y-z", "-", "a-", "-1", "it\\'s-a", "back\\\\-slash", "\u00e9-\u6f22"]
 QKEYS_IDENT = ["MD5", "a", "x_1", "_", "SHA256"]
-QKEYS_WEIRD = ["a b", "", "1a", "AND", "it\\'s", "a.b", "a[1]", "\u00e9", "a\\\\b", "true"]
+QKEYS_WEIRD = ["a b", "", "1a", "AND", "it\\'s", "a.b", "a[1]", "\u00e9", "a\\\\b", "true", "\x7f", "\U0001F600", "a__b", "x--y",
+               "a\\'", "\\\\"] + KEYWORDS_21
 STR_ALPHA = ["a", "b", "Z", "0", "9", " ", "-", "_", "%", ".", "*", "(", ")", "[", "]", ":", "\"", "\\'", "\\\\",
              "\u00e9", "\u6f22", "\U0001F600", "\t", "\n", "/", "=", "\x7f", "\u2028"]
 
@@ -549,7 +560,8 @@ def g_int(rng, pos_only=False):
     if r < 0.35:
         n = rng.choice([0, 1, 2, 7, 9, 10, 99, 100, 255, 65535])
     elif r < 0.5:
-        n = rng.choice([2 ** 31 - 1, 2 ** 31, 2 ** 63 - 1, 2 ** 63, 2 ** 64, 10 ** 30, 10 ** 18 + 1])
+        n = rng.choice([2 ** 31 - 1, 2 ** 31, 2 ** 63 - 1, 2 ** 63, 2 ** 64, 10 ** 30, 10 ** 18 + 1, 2 ** 53, 2 ** 53 + 1,
+                        10 ** 21 - 1, 10 ** 21, 10 ** 400 + 7])
     else:
         n = rng.randrange(0, 10 ** rng.choice([1, 2, 3, 6, 12]))
     sign = rng.choice(["", "", "", "+", "-"]) if not pos_only else rng.choice(["", "", "+"])
@@ -625,7 +637,7 @@ def g_timestamp(rng):
     if r2 < 0.45:
         frac = ""
     elif r2 < 0.95:
-        frac = "." + rng.choice(["0", "1", "10", "000", "123", "500", "123456", "000001", "999999", "120000", "05"])
+        frac = "." + rng.choice(["0", "1", "10", "000", "123", "500", "123456", "000001", "999999", "120000", "05", "250", "5", "25"])
     else:
         frac = "." + rng.choice(["1234567", "0000000", "123456789", "1000000"])
     return ["TimestampLiteral", "t'%04d-%02d-%02dT%02d:%02d:%02d%sZ'" % (y, mo, d, h, mi, s, frac)]
@@ -660,8 +672,8 @@ def g_index(rng):
     if r < 0.3:
         return ["ASTERISK", "*"]
     if r < 0.85:
-        return ["IntPosLiteral", rng.choice(["0", "1", "2", "12", "+1", "+0", "100"])]
-    return ["IntNegLiteral", rng.choice(["-1", "-0", "-12"])]
+        return ["IntPosLiteral", rng.choice(["0", "1", "2", "12", "+1", "+0", "100", "9", "10", "255", "256", str(2 ** 63)])]
+    return ["IntNegLiteral", rng.choice(["-1", "-0", "-12", "-2", "-100", "-256"])]
 
 
 def g_path(rng, typ=None):
@@ -777,7 +789,9 @@ class Gen:
 
 def lit_samples():
     return [["IntPosLiteral", "5"], ["IntPosLiteral", "+5"], ["IntNegLiteral", "-5"], ["IntPosLiteral", "0"],
+            ["IntNegLiteral", "-0"], ["IntPosLiteral", str(2 ** 53 + 1)], ["IntPosLiteral", str(10 ** 21)],
             ["FloatPosLiteral", "1.5"], ["FloatNegLiteral", "-0.25"], ["FloatPosLiteral", ".5"],
+            ["FloatPosLiteral", "0.0"], ["FloatNegLiteral", "-0.0"], ["FloatPosLiteral", "7.0"], ["FloatPosLiteral", "+.0"],
             ["StringLiteral", "'x'"], ["StringLiteral", "'it\\'s \\\\ here'"], ["StringLiteral", "''"],
             ["BinaryLiteral", "b'AAEC'"], ["BinaryLiteral", "b'QUI='"], ["HexLiteral", "h'00ff'"],
             ["TimestampLiteral", "t'2016-05-12T08:17:27.000Z'"], ["TimestampLiteral", "t'2020-02-29T23:59:59Z'"]]
@@ -894,6 +908,80 @@ def systematic():
         out += [[[[g]]], [[[A, g]]], [[[g, A]]], [[[A], [g]]], [[[g]], [[A]]], [[[A]], [[g]]],
                 [[[["qual", g, quals[0]]]]], [[[["qual", g, quals[4]], A]]], [[[["compound", [[[g]]]]]]],
                 [[[["qual", ["compound", [[[A, g]]]], quals[6]]]]]]
+    # every keyword of either grammar version as a quoted key step, as an index name, and in the other case as identifier
+    for kw in KEYWORDS_21:
+        qk = ["key", ["StringLiteral", "'%s'" % kw]]
+        out.append(simple(["eq", ["path", types[0], ["StringLiteral", "'%s'" % kw], [qk, ["idx", idx_forms[3]], qk]], False,
+                           ["EQ", "="], ["StringLiteral", "'%s'" % kw]]))
+        lk = ["IdentifierWithoutHyphen", kw.swapcase()]
+        out.append(simple(["eq", ["path", lk, lk, [["key", lk], ["idx", idx_forms[0]]]], False, ["EQ", "="], ["IntPosLiteral", "1"]]))
+    # timestamps: 0 / 1 / 2 / 3 / 6 fraction digits, trailing zeros, whole seconds, year below 1000
+    for fr in ("", ".5", ".25", ".250", ".123", ".000", ".123456", ".100000", ".000001"):
+        for y in ("2016", "0999", "0001"):
+            out.append(simple(["eq", pa, False, ["EQ", "="], ["TimestampLiteral", "t'%s-02-03T04:05:06%sZ'" % (y, fr)]]))
+    out += sizes_family()
+    return out
+
+
+def sizes_family(max_chain=101, max_depth=11):
+    """the same constructs at sizes / depths on both sides of plausible bounds (SIZES): set elements, path steps,
+    AND / OR chains of comparisons, AND / OR / FOLLOWEDBY chains of observations, nesting depth of parentheses at
+    both levels, and lengths of strings, names, numbers, hex and binary bodies.  Chains and depths are capped
+    (left-deep parse trees: the generated parser and the visitor recurse once per operand / level)."""
+    out = []
+    ident = lambda t: ["IdentifierWithoutHyphen", t]      # noqa: E731
+    pa = ["path", ident("a"), ident("b"), []]
+    one = lambda i: ["eq", pa, False, ["EQ", "="], ["IntPosLiteral", str(i)]]     # noqa: E731
+    for n in SIZES:
+        out.append(simple(["set", pa, False, [["IntPosLiteral", str(i)] for i in range(n)]]))
+        steps = []
+        for i in range(n):
+            steps.append(["idx", ["IntPosLiteral", str(i)]] if i % 3 == 2 else
+                         ["key", ["StringLiteral", "'k-%d'" % i] if i % 3 == 1 else ident("k%d" % i)])
+        out.append(simple(["eq", ["path", ident("a"), ident("b"), steps], False, ["EQ", "="], ["IntPosLiteral", "1"]]))
+        if 1 <= n <= max_chain:
+            out.append([[[["simple", [[one(i) for i in range(n)]]]]]])                       # AND chain
+            out.append([[[["simple", [[one(i)] for i in range(n)]]]]])                       # OR chain
+            obs = [["simple", [[one(i)]]] for i in range(n)]
+            out.append([[obs]])                                                              # observation AND
+            out.append([[[o] for o in obs]])                                                 # observation OR
+            out.append([[[o]] for o in obs])                                                 # FOLLOWEDBY
+        if 1 <= n <= max_depth:
+            e = one(0)
+            for _ in range(n):
+                e = ["paren", [[e, one(1)]]]
+            out.append(simple(e))
+            o = ["simple", [[one(0)]]]
+            for _ in range(n):
+                o = ["compound", [[[o], [["simple", [[one(1)]]]]]]]
+            out.append([[[o]]])
+        if n in (0, 1, 255, 256):
+            out.append(simple(["eq", pa, False, ["EQ", "="], ["StringLiteral", "'" + "x" * n + "'"]]))
+            out.append(simple(["eq", pa, False, ["EQ", "="], ["StringLiteral", "'" + "\\'" * n + "'"]]))
+            out.append(simple(["str", "LIKE", pa, False, ["StringLiteral", "'" + "\u00e9" * n + "'"]]))
+            out.append(simple(["eq", pa, False, ["EQ", "="], ["HexLiteral", "h'" + "aB" * n + "'"]]))
+            out.append(simple(["eq", pa, False, ["EQ", "="], ["BinaryLiteral", "b'" + "QUJD" * n + "QUI='"]]))
+            if n:
+                out.append(simple(["eq", pa, False, ["EQ", "="], ["IntPosLiteral", "9" * n]]))
+                out.append(simple(["eq", pa, False, ["EQ", "="], ["FloatPosLiteral", "0." + "0" * (n - 1) + "5"]]))
+                out.append(simple(["eq", pa, False, ["EQ", "="], ["FloatPosLiteral", "5" + "0" * (n - 1) + ".0"]]))
+                out.append(simple(["eq", ["path", ident("t" * n), ident("n" * n), [["key", ["StringLiteral", "'" + "k-" * n + "'"]]]],
+                                   False, ["EQ", "="], ["IntPosLiteral", "1"]]))
+    return out
+
+
+def only20_family():
+    """a keyword of the 2.1 grammar that the 2.0 grammar does not have is an ordinary identifier in 2.0 patterns:
+    as object type, first component, key step and inside longer names (trees for version "2.0" only)"""
+    out = []
+    ident = lambda t: ["IdentifierWithoutHyphen", t]      # noqa: E731
+    for k in ONLY_21:
+        for pa in (["path", ident(k), ident("b"), []], ["path", ident("a"), ident(k), []],
+                   ["path", ident("a"), ident("b"), [["key", ident(k)]]],
+                   ["path", ident("a"), ident("b"), [["key", ident(k)], ["idx", ["ASTERISK", "*"]], ["key", ident(k)]]],
+                   ["path", ["IdentifierWithHyphen", k + "-x"], ident(k + "_"), [["key", ["StringLiteral", "'%s'" % k]]]]):
+            out.append(simple(["eq", pa, False, ["EQ", "="], ["IntPosLiteral", "1"]]))
+            out.append(simple(["eq", pa, True, ["NEQ", "!="], ["StringLiteral", "'%s'" % k]]))
     return out
 
 
